@@ -402,3 +402,21 @@ _c["level_text"] += (" From the RAW STRING (Props/C07B.lean): url.Parse and Quer
 _c["level_note"] += (" For the raw-string theorems net/url leaves the trusted base except for the validation by suite urlraw (go1.23.5). The filter "
     "parameter's JSON decode is the modelled codec inside its validated domain (well-formed UTF-8, no whitespace, no surrogate escapes, integer "
     "numerals within 2^53) and handed over by the harness outside it; the theorems hold for every decode.")
+
+# Work package W1: compositions and corollaries asked for by the independent audit (additive).
+# Item 1 - GenC07c (Props/GenC07c.lean): "never panics" on the TRANSLATED url front end, along the
+# chain url.Parse -> NewSimpleURL -> NewURL as NewURLFromRaw (url.go) chains it.
+_W1_GENC07C = ["Gen_NewURL_of_NewSimpleURL", "Gen_NewURLFromRaw_eq_model", "Gen_NewURLFromRaw_no_panic",
+               "Gen_NewURLFromRaw_no_panic_any_decoder", "Gen_NewURLFromRaw_result"]
+for _pid in ("C07", "C08"):
+    _c = PROPS[_pid]; _c["modules"] = list(_c.get("modules", [_pid])) + ["GenC07c"]; _c["theorems"] = list(_c["theorems"]) + _W1_GENC07C; _c["level_text"] += (" Never panics on the TRANSLATED code (Props/GenC07c.lean): NewURLFromRaw's chain over the translated NewSimpleURL, NewParams and NewURL - the urule[0] read included - returns, for every url.Parse result, every values map with distinct keys and every pair of json.Unmarshal parameters, exactly what the model's newURLFrom returns and never Res.panic (Gen_NewURLFromRaw_eq_model, Gen_NewURLFromRaw_no_panic, Gen_NewURLFromRaw_result; Gen_NewURL_of_NewSimpleURL is the step from an accepted SimpleURL); the decoded-filter hypothesis is discharged for every decoder that leaves a non-nil *Filter non-nil on success (Gen_NewURLFromRaw_no_panic_any_decoder).")
+# Item 2 - C04M (Props/C04M.lean): the exactly / iff corollaries of C04 on the MODEL's output.
+_c = PROPS["C04"]; _c["modules"] = list(_c.get("modules", ["C04"])) + ["C04M"]; _c["theorems"] = list(_c["theorems"]) + ["C04M_tree", "C04M_attr_present_iff", "C04M_rel_present_iff", "C04M_data_present_iff", "C04M_data_exact", "C04M_no_entry", "C04M_not_selected", "C04M_resource_member", "C04M_collection_members", "C04M_document_members"]; _c["level_text"] += " On the MODEL's output (Props/C04M.lean): each exactly / iff corollary is restated for the tree j that marshalResource returns (C04M_attr_present_iff, C04M_rel_present_iff, C04M_data_present_iff, C04M_data_exact, C04M_no_entry, C04M_not_selected), and document-wide every resource object under `data` (single resource or each collection member, in order) and under `included` (in ID order) of the tree marshalDocument returns meets all the clauses with the selection of its own type (C04M_document_members, C04M_collection_members)."
+# Item 3 - C17E (Props/C17E.lean): EqualStrict laws and soundness of Equal by field NAME.
+_c = PROPS["C17"]; _c["modules"] = list(_c.get("modules", ["C17"])) + ["C17E"]; _c["theorems"] = list(_c["theorems"]) + ["C17_equalStrict_refl", "C17_equalStrict_symm", "C17_equal_sound_by_name", "C17_equal_complete_by_name", "C17_equal_iff_by_name", "C17_equalStrict_iff_by_name", "C17_equal_by_name_needs_names_counterexample"]; _c["level_text"] += " EqualStrict is reflexive and symmetric like Equal (C17_equalStrict_refl, C17_equalStrict_symm); BY NAME (Props/C17E.lean): when the two resources have the same sorted attribute-name list, Equal holds exactly when type name, relationship names and cardinalities coincide and the values of EVERY field name agree (C17_equal_sound_by_name, C17_equal_complete_by_name, C17_equal_iff_by_name, strict form C17_equalStrict_iff_by_name); without the hypothesis on the names the by-name reading fails on the known finding's witness (C17_equal_by_name_needs_names_counterexample)."
+# Item 4 - C15C (Props/C15C.lean): counting form of "at least one error for each offending relationship".
+_c = PROPS["C15"]; _c["modules"] = list(_c.get("modules", ["C15"])) + ["C15C"]; _c["theorems"] = list(_c["theorems"]) + ["C15C_offends_iff_offending", "C15C_namesNonEmpty_iff", "C15C_namesNonEmpty_no_quirk", "C15C_checkRel_le_two", "C15C_checkRel_pos_iff_exact", "C15C_checkRel_pos_of_offends", "C15C_checkRel_pos_iff", "C15C_checkRel_zero_iff", "C15C_checkRel_zero_imp", "C15C_checkCount_eq_sum", "C15C_count_ge", "C15C_count_le_exact", "C15C_count_le", "C15C_count_zero_imp", "C15C_count_zero_iff_partial", "C15C_count_zero_iff", "C15C_count_zero_iff_offenderCount", "C15C_count_zero_iff_counterexample", "C15C_checkRel_pos_iff_counterexample", "C15C_gen_length_ge", "C15C_gen_length_le", "C15C_gen_nil_imp", "C15C_gen_nil_iff_partial", "C15C_gen_nil_iff", "C15C_gen_nil_iff_counterexample"]; _c["level_text"] += " Counting form (Props/C15C.lean): for EVERY schema the number of errors is at least the number of offending (type, relationship) occurrences counted with multiplicity (C15C_count_ge; on the translated Check: C15C_gen_length_ge) and at most twice it, and zero exactly when no occurrence offends, on schemas without a type named \"\" (C15C_count_le, C15C_count_zero_iff, C15C_gen_nil_iff); without that hypothesis the iff is refuted (C15C_count_zero_iff_counterexample: Check tests existence by GetType(ToType).Name == \"\", so a type named \"\" targeted by ToType \"\" is reported although it exists) and the exact all-schema statement is C15C_count_zero_iff_partial / C15C_checkRel_pos_iff_exact."
+# Item 5 - C10M (Props/C10M.lean): the algebraic laws on the MODEL's checkVal / isAllowed; ID-list equality = permutation.
+_c = PROPS["C10"]; _c["modules"] = list(_c.get("modules", ["C10"])) + ["C10M"]; _c["theorems"] = list(_c["theorems"]) + ["C10_valEq_ids_iff_perm", "C10_valEq_ids_iff_sort", "C10_valEq_ids_not_set_counterexample", "C10_model_ids_iff_perm", "C10_model_ids_perm_invariant", "C10_comparable_of_hasAttrType", "C10_comparable_iff", "C10_model_checkVal", "C10_ord_isSome", "C10_valOrdered_eq", "C10_valLt_ordered", "C10_evalCmp_not_ordered", "C10_trichotomy_sval", "C10_model_complement", "C10_model_le_ge", "C10_comparable_symm", "C10_model_gt_swap", "C10_model_trichotomy", "C10_model_unordered", "C10_model_nil", "C10_model_nil_right", "C10_model_unordered_bool", "C10_model_unordered_ids", "C10_model_unknown_op", "C10_getAttrVal_cases", "C10_leafWellTyped_cmp", "C10_leaf_checkVal", "C10_cmp_ops", "C10_isNil_fieldVal", "C10_isAllowed_complement", "C10_isAllowed_le_ge", "C10_isAllowed_trichotomy", "C10_isAllowed_nil", "C10_isAllowed_nil_right", "C10_isAllowed_unordered", "C10_isAllowed_unknown_op", "C10_isAllowed_ids_iff_perm", "C10_wellTypedAll_mem", "C10_evalAll_iff", "C10_evalAny_iff", "C10_isAllowed_and", "C10_isAllowed_or", "C10_isAllowed_empty", "C10_isAllowed_in", "C10_isAllowed_has"]; _c["level_text"] += " On the MODEL (Props/C10M.lean): the laws are transferred to checkVal for every comparable pair - two values or two pointers of one kind, or two ID lists - (C10_model_complement, C10_model_le_ge, C10_model_trichotomy, C10_model_nil, C10_model_nil_right, C10_model_unordered, C10_model_unknown_op, C10_model_gt_swap) and to isAllowed for every well-formed resource and well-typed leaf or node (C10_isAllowed_complement / _le_ge / _trichotomy / _nil / _unordered / _unknown_op, and / or iff all / some child, in / has as membership); equality of two to-many ID lists is exactly 'permutations of each other' in the specification and in the model (C10_valEq_ids_iff_perm, C10_valEq_ids_iff_sort, C10_model_ids_iff_perm, C10_isAllowed_ids_iff_perm): multiset, not set, equality (C10_valEq_ids_not_set_counterexample)."
+# Item 6 - C07T (Props/C07T.lean): resolvePath declaratively; "so the order they define is total".
+_c = PROPS["C07"]; _c["modules"] = list(_c.get("modules", ["C07"])) + ["C07T"]; _c["theorems"] = list(_c["theorems"]) + ["C07T_resolvePath_iff_chain", "C07T_resolvePath_iff", "C07T_resolvePath_of_valid", "C07T_resolvePath_needs_inv", "C07T_include_kept", "C07T_include_requested", "C07T_sort_has_id", "C07T_spec_order_total", "C07T_less_total", "C07T_less_panic_possible", "C07T_less_total_wf", "C07T_order_total", "C07T_order_total_wf"]; _c["level_text"] += " Declaratively (Props/C07T.lean): resolvePath σ t words = some rels iff rels is a valid chain of the schema from t (Spec.validChain) whose relationship names are the words, on schemas with C14's invariant (C07T_resolvePath_iff; hypothesis-free form C07T_resolvePath_iff_chain, the invariant shown necessary by C07T_resolvePath_needs_inv), and C07_include_kept is restated with that notion of valid path (C07T_include_kept, C07T_include_requested); 'so the order they define is total': a collection URL's rules contain id (C07T_sort_has_id), hence for two resources with distinct IDs the specification's comparison is never a tie and the model's Less of Range either fails a type assertion (ill-typed values only: C07T_less_panic_possible) or holds in exactly one direction (C07T_order_total, C07T_less_total, C07T_spec_order_total; without the failure alternative under C09's typing hypotheses: C07T_order_total_wf, C07T_less_total_wf)."
